@@ -36,7 +36,10 @@ def run_cli(cli, args, stdin_bytes, stdout_mode, pre):
         full = os.path.join(jail, p.decode())
         if not inside(base, full):
             continue
-        if k == "d":
+        if k.startswith("l"):
+            os.makedirs(os.path.dirname(full), exist_ok=True)
+            os.symlink(unhx(k[1:]), full)
+        elif k == "d":
             os.makedirs(full, exist_ok=True)
         else:
             os.makedirs(os.path.dirname(full), exist_ok=True)
@@ -104,7 +107,9 @@ def run(ck, rng):
             # the read fails before the first root is complete: an over-long first row (the scanner's limit)
             doc = rng.choice([b"- ", b"", b"  "]) + b"x" * rng.choice([65536, 70000]) + b"\n" + doc
         stdout_mode = rng.choice(["pipe", "pipe", "pipe", "full", "closed"])
-        via_file = rng.choice([None, None, "in.md", "-", "missing.md"] + (["adir"] if kind != "usage" else []))
+        via_file = rng.choice([None, None, "in.md", "-", "missing.md"] + (["adir", "/dev/stdin", "/dev/null"] if kind != "usage" else []))
+        if via_file == "/dev/null":
+            doc = b""           # --file names a special file: whatever can be opened and read is read
         args, pre, lib, expect_usage_err, expect_open_err = [], [], None, False, False
         mfmt, mdry, mexts, mtarget, mstrict = "-", "0", [], b"", "0"
         stdin = doc
@@ -138,7 +143,11 @@ def run(ck, rng):
             if massive:
                 args += ["--massive"]     # mkdir has no --massive flag: a usage error
                 expect_usage_err = True
-            pre += [(b"sentinel", "d")] + ([(b"tgt/" + merged_items(items)[0][0][1], "d")] if rng.random() < 0.15 and target == b"tgt" and b"/" not in merged_items(items)[0][0][1] and b"\x00" not in merged_items(items)[0][0][1] and len(merged_items(items)[0][0][1]) <= 255 and merged_items(items)[0][0][1] not in (b".", b"..") else [])
+            symlink_target = (target == b"tgt" and rng.random() < 0.15)
+            if symlink_target:
+                # --target-dir is a symbolic link to a directory: the library works through it, so must the command
+                pre += [(b"real_tgt", "d"), (b"tgt", "l" + hx(b"real_tgt"))]
+            pre += [(b"sentinel", "d")] + ([(b"tgt/" + merged_items(items)[0][0][1], "d")] if rng.random() < 0.15 and target == b"tgt" and not symlink_target and b"/" not in merged_items(items)[0][0][1] and b"\x00" not in merged_items(items)[0][0][1] and len(merged_items(items)[0][0][1]) <= 255 and merged_items(items)[0][0][1] not in (b".", b"..") else [])
             if dry:
                 lib = "hist F,%s;o,d,1,0,%s,%s,%s" % (snap_arg(pre), bf_csv(BF_DEFAULT), exts_plus(exts), hx(doc))
             else:
@@ -149,6 +158,9 @@ def run(ck, rng):
             mstrict, mtarget = ("1" if strict else "0"), target
             args = ["verify"] + (["--strict"] if strict else []) + (["--target-dir", target.decode()] if target else [])
             np_ = node_paths(flat_merged(items), [])
+            if target == b"tgt" and rng.random() < 0.15:
+                pre += [(b"real_tgt", "d"), (b"tgt", "l" + hx(b"real_tgt"))]
+                np_ = [(b"../real_tgt/" + p, k_, r_) for p, k_, r_ in np_]
             pre += [(tjoin(target, p), "d") for p, _, _ in np_ if rng.random() < 0.9 and all(single_elem(c) for c in p.split(b"/"))]
             pre = [(p, k) for p, k in pre if not p.startswith(b"/") and not p.startswith(b"..") and b"\x00" not in p and len(p) < 200]
             lib = "hist F,%s;v,%s,%s,%s" % (snap_arg(pre), "1" if strict else "0", hx(target), hx(doc))
@@ -162,7 +174,7 @@ def run(ck, rng):
                 continue   # urfave/cli prints help for an unknown command name; not part of the claim
         if via_file is not None and kind != "usage":
             args += [rng.choice(["--file", "-f"]), via_file]
-            if via_file == "in.md":
+            if via_file in ("in.md", "/dev/null"):
                 stdin = b""
             if via_file == "missing.md":
                 expect_open_err = True
@@ -174,8 +186,8 @@ def run(ck, rng):
         jobs.append((kind, args, stdin, stdout_mode, pre, lib, expect_usage_err, expect_open_err, doc, via_file, massive))
         lib_cases.append(lib or "settle")
         mpre = [(p_, k_) for p_, k_ in pre if p_ != b"in.md"]
-        if via_file == "adir" and kind != "usage":
-            model_cases.append("skip")
+        if (via_file == "adir" and kind != "usage") or any(k.startswith("l") for _, k in pre):
+            model_cases.append("skip")      # not modelled: a directory as input file, symbolic links
             continue
         model_cases.append("cli %s %s %s %s %s %s %s %s %s %s %s" % (
             kind if kind != "usage" else args[0] if args[0] in ("output", "mkdir", "verify", "template") else "output",
@@ -213,7 +225,8 @@ def run(ck, rng):
                 lib_bytes = None
             if kind in ("mkdir", "verify"):
                 lib_snap = parse_snap(lres[2]) if len(lres) > 2 else parse_snap(parts[0].split(" ")[2])
-                lib_snap = {k: v for k, v in lib_snap.items() if k != b"in.md"}
+                links = set(p_ for p_, k_ in pre if k_.startswith("l"))      # a link is listed differently by the two snapshot walkers
+                lib_snap = {k: v for k, v in lib_snap.items() if k != b"in.md" and k not in links}
             # expected stdout bytes: what the library wrote
             if kind == "output" or (kind == "mkdir" and "o,d,1" in lib):
                 want_out = b""
@@ -243,7 +256,7 @@ def run(ck, rng):
                 elif lib_ok and not writes_expected and rc != 0:
                     bad = "nothing to write and the library succeeds, but exit status %d" % rc
             if not bad and kind in ("mkdir", "verify"):
-                fs_after = {k: v for k, v in after.items() if k != b"in.md"}
+                fs_after = {k: v for k, v in after.items() if k != b"in.md" and k not in links}
                 if fs_after != lib_snap:
                     bad = "file-system effect differs from the library's: %r" % sorted(set(fs_after.items()) ^ set(lib_snap.items()))[:3]
         if not bad and not massive and mr != "badcase" and not mr.startswith("exn"):
@@ -274,7 +287,10 @@ def run_cli_doc(cli, args, stdin, stdout_mode, pre, doc, via_file):
         full = os.path.join(jail, p.decode("utf-8", "surrogateescape"))
         if p == b"in.md" or not inside(base, full):
             continue
-        if k == "d":
+        if k.startswith("l"):
+            os.makedirs(os.path.dirname(full), exist_ok=True)
+            os.symlink(unhx(k[1:]), full)
+        elif k == "d":
             os.makedirs(full, exist_ok=True)
         else:
             os.makedirs(os.path.dirname(full), exist_ok=True)
